@@ -498,8 +498,11 @@ func (in *interp) service(s *Service) {
 		for _, e := range s.Errors {
 			in.errDef(e)
 		}
-		if s.Path != "" || len(s.HTTPErrors) > 0 {
+		if s.Path != "" || len(s.HTTPErrors) > 0 || s.Parent != "" {
 			dsl.HTTP(func() {
+				if s.Parent != "" {
+					dsl.Parent(s.Parent)
+				}
 				if s.Path != "" {
 					dsl.Path(s.Path)
 				}
